@@ -8,7 +8,7 @@ _Z80_FILES = ['rustzx-z80/src/cpu.rs', 'rustzx-z80/src/registers.rs', 'rustzx-z8
               'rustzx-z80/src/opcode/internal_block.rs', 'rustzx-z80/src/opcode/internal_stack.rs']
 
 META = {'title': 'Interrupt, NMI, HALT and prefix sequencing follow the Z80 rules',
- 'lean_modules': ['ZxVerif.Props.C02'],
+ 'lean_modules': ['ZxVerif.Props.C02', 'ZxVerif.Props.C02Sys'],
  'modelled_code': ['rustzx-z80/src/cpu.rs (emulate, handle_interrupt, prefix chain)',
                    'rustzx-z80/src/opcode/group_nonprefixed.rs (EI, DI, HALT)',
                    'rustzx-z80/src/opcode/group_extended.rs (RETN/RETI, IM n)',
@@ -34,7 +34,11 @@ META = {'title': 'Interrupt, NMI, HALT and prefix sequencing follow the Z80 rule
                '(flip-flops, pushes, vector, HALT release, R); a halted CPU spins with one 4-T fetch; RETN/RETI copy '
                'IFF2 for all eight encodings. Tied to Z80::emulate by a correspondence check that is exhaustive over '
                'the control state (IFF1 x IFF2 x halted x skip x pending prefix x IM x line levels x 14 boundary '
-               'instructions) and runs seeded random programs with scripted line schedules.',
+               'instructions) and runs seeded random programs with scripted line schedules. Props/C02Sys.lean states the rules on '
+               'the composed machine (Z80 model on the Spectrum bus model) for every program: IM 2 vector fetch through the '
+               'memory map with the 16-bit wrap of the table address, pushes through the map (ROM drops them), entry '
+               'times with ULA delays, acceptance iff IFF1 and no hold-off and frame clock < 32 at every boundary of every '
+               'run, whole frames between acceptances, EI; HALT served exactly once per frame, RETN/RETI through the map.',
  'level_note': COMMON_NOTE + ' Partial: the whole-CPU equality code = reference is established by differential '
                'testing (exhaustive over the control-state matrix, sampled over programs/schedules), not by proof; '
                'real-silicon behaviour of HALT (PC+1 during the NOPs) and IM 0 (executing the bus byte) is outside '
